@@ -10,3 +10,54 @@ pub fn compile_rasn(c: Compiler<RasnBackend, CompilerReady>) -> Result<Vec<Compi
 pub fn compile_ts(c: Compiler<TypescriptBackend, CompilerReady>) -> Result<Vec<CompilerError>, CompilerError> {
     c.compile()
 }
+
+// ---- builder transitions (one function per state x method), composed by the harness in every order -----------------
+use rasn_compiler::{CompilerMissingParams, CompilerOutputSet, CompilerSourcesSet, OutputMode};
+use std::path::PathBuf;
+type B = RasnBackend;
+
+pub fn b_new() -> Compiler<B, CompilerMissingParams> {
+    Compiler::<B, _>::new()
+}
+pub fn m_literal(c: Compiler<B, CompilerMissingParams>, s: String) -> Compiler<B, CompilerSourcesSet> {
+    c.add_asn_literal(s)
+}
+pub fn m_path(c: Compiler<B, CompilerMissingParams>, p: PathBuf) -> Compiler<B, CompilerSourcesSet> {
+    c.add_asn_by_path(p)
+}
+pub fn m_paths(c: Compiler<B, CompilerMissingParams>, p: Vec<PathBuf>) -> Compiler<B, CompilerSourcesSet> {
+    c.add_asn_sources_by_path(p.into_iter())
+}
+pub fn m_mode(c: Compiler<B, CompilerMissingParams>, m: OutputMode) -> Compiler<B, CompilerOutputSet> {
+    c.set_output_mode(m)
+}
+pub fn o_literal(c: Compiler<B, CompilerOutputSet>, s: String) -> Compiler<B, CompilerReady> {
+    c.add_asn_literal(s)
+}
+pub fn o_path(c: Compiler<B, CompilerOutputSet>, p: PathBuf) -> Compiler<B, CompilerReady> {
+    c.add_asn_by_path(p)
+}
+pub fn o_paths(c: Compiler<B, CompilerOutputSet>, p: Vec<PathBuf>) -> Compiler<B, CompilerReady> {
+    c.add_asn_sources_by_path(p.into_iter())
+}
+pub fn s_literal(c: Compiler<B, CompilerSourcesSet>, s: String) -> Compiler<B, CompilerSourcesSet> {
+    c.add_asn_literal(s)
+}
+pub fn s_path(c: Compiler<B, CompilerSourcesSet>, p: PathBuf) -> Compiler<B, CompilerSourcesSet> {
+    c.add_asn_by_path(p)
+}
+pub fn s_paths(c: Compiler<B, CompilerSourcesSet>, p: Vec<PathBuf>) -> Compiler<B, CompilerSourcesSet> {
+    c.add_asn_sources_by_path(p.into_iter())
+}
+pub fn s_mode(c: Compiler<B, CompilerSourcesSet>, m: OutputMode) -> Compiler<B, CompilerReady> {
+    c.set_output_mode(m)
+}
+pub fn r_literal(c: Compiler<B, CompilerReady>, s: String) -> Compiler<B, CompilerReady> {
+    c.add_asn_literal(s)
+}
+pub fn r_path(c: Compiler<B, CompilerReady>, p: PathBuf) -> Compiler<B, CompilerReady> {
+    c.add_asn_by_path(p)
+}
+pub fn r_paths(c: Compiler<B, CompilerReady>, p: Vec<PathBuf>) -> Compiler<B, CompilerReady> {
+    c.add_asn_sources_by_path(p.into_iter())
+}
